@@ -38,6 +38,7 @@ DEFAULT_OPTS = {
     "exp_order": None,           # permutation of experiment indices
     "only_exp": None,            # run just this experiment index (stand-alone golden for C10)
     "bam_order": None,           # permutation seed for the order of files within an experiment
+    "ref_gz": False,             # reference given as plain-gzip FASTA (not bgzf): IsoQuant gunzips it into the output folder
 }
 
 
@@ -58,6 +59,13 @@ def new_rundir(tag="run"):
 def build_inputs(spec, opts, indir):
     o = full_opts(opts)
     truth, paths = workload.build(spec, indir, gtf_gz=(o["gtf_repr"] == "gz"))
+    if o["ref_gz"]:
+        import gzip as _gz
+        gzp = paths["fasta"] + ".gz"
+        with open(paths["fasta"], "rb") as fin, open(gzp, "wb") as raw:
+            with _gz.GzipFile(fileobj=raw, mode="wb", mtime=0) as f:
+                f.write(fin.read())
+        paths["fasta_gz"] = gzp
     if o["gtf_repr"] == "db" and o["annotated"]:
         # a pre-built database supplied by the user: converted here with the real gffutils, IsoQuant's own arguments
         import gffutils
@@ -76,7 +84,8 @@ def make_argv(truth, paths, opts, outdir, indir):
     """returns (argv, prefixes)"""
     o = full_opts(opts)
     s = truth["spec"]
-    argv = ["--reference", paths["fasta"], "-d", o["data_type"], "-o", outdir, "-t", str(o["threads"]), "--force"]
+    argv = ["--reference", paths["fasta_gz"] if o["ref_gz"] else paths["fasta"], "-d", o["data_type"], "-o", outdir,
+            "-t", str(o["threads"]), "--force"]
     if o["annotated"]:
         if o["gtf_repr"] == "gz":
             argv += ["--genedb", paths["gtf_gz"]]
@@ -265,6 +274,10 @@ def crash_resume(args):
         argv = ["--resume", "-o", outdir]
         if rs.get("threads") is not None:
             argv += ["-t", str(rs["threads"])]
+        if rs.get("high_memory"):
+            argv += ["--high_memory"]
+        if rs.get("keep_tmp"):
+            argv += ["--keep_tmp"]
         n = 0
         f2 = rs.get("fault2")
         if f2:
